@@ -46,8 +46,16 @@ class Sub:
             steps, self.inside = self.inside, []
             for st in steps:
                 self.world.op_user_subscribe(dict(st, inside=True))
-        for _ in range(self.yields):
-            await asyncio.sleep(0)
+        try:
+            for _ in range(self.yields):
+                await asyncio.sleep(0)
+        except asyncio.CancelledError:
+            # a subscriber that was called and then cancelled at an await of its own never got to act on the update
+            if not getattr(self.world, "tearing_down", False):
+                self.world.trace.add("sub.cancelled", k=self.name)
+            raise
+        if self.yields:
+            self.world.trace.add("sub.done", k=self.name)
         if self.replies:
             d = self.replies.pop(0)
             self.world.trace.add("sub.reply", k=self.name)
@@ -176,6 +184,8 @@ class World:
 
     def _teardown(self) -> None:
         import warnings
+
+        self.tearing_down = True
 
         loop = self.loop
         with warnings.catch_warnings():
@@ -421,6 +431,36 @@ class World:
             return await getattr(obj, step["call"])(*args, **kwargs)
 
         self._spawn_user(step, go)
+
+    def op_user_second_system(self, step) -> None:
+        """Another AirTouch system driven by the same process (an application may talk to several consoles): its own simulated
+        network and console under another address, its own client object, initialised and left running. Nothing about it is
+        observed or judged - it must simply not influence the system under observation."""
+        import pyairtouch
+        from sim.trace import Trace
+
+        gen2 = step.get("gen", self.gen)
+        host2, port2 = "10.0.0.2", (9004 if gen2 == 4 else 9005)
+        tr2 = Trace(self.loop)
+        net2 = SimNet(self.loop, tr2)
+        self.loop.net = self.net  # the primary network stays the default
+        net2.latency = self.net.latency
+        net2.segment = lambda data: [data]
+        console2 = refconsole.Console(net2, refconsole.default_installation(gen2), tr2)
+        net2.listen(host2, port2, console2)
+        if not hasattr(self.loop, "nets_by_host"):
+            self.loop.nets_by_host = {}
+        self.loop.nets_by_host[host2] = net2
+        model = pyairtouch.AirTouchModel.AIRTOUCH_4 if gen2 == 4 else pyairtouch.AirTouchModel.AIRTOUCH_5
+        at2 = pyairtouch.connect(model, host2, port2, airtouch_id="AT-2", name="Other", serial="S-2")
+        self.second = (at2, net2, console2)
+        self.trace.add("user.second_system", gen=gen2)
+
+        async def go():
+            await at2.init()
+
+        t = self.loop.create_task(go())
+        self.user_tasks.append(t)
 
     def op_user_subscribe(self, step) -> None:
         name = step["name"]
